@@ -1349,6 +1349,7 @@ func TestTwoChains(t *testing.T) {
 	g := genCase(genCfg{schemes: []string{"groth16", "plonk"}, pairs: pairsQ, minT: 4, maxT: 8, compiled: 12})
 	rec.Check(t, "rec", ev.N(56, 1600), func(rt *rapid.T) {
 		c := g.Draw(rt, "case")
+		rec.Begin("rec", c)
 		rec.Report(rt, "rec", c, run(c, rec))
 	})
 }
@@ -1365,6 +1366,7 @@ func TestEmulated(t *testing.T) {
 	g := genCase(genCfg{schemes: []string{"groth16", "plonk"}, pairs: ps, minT: 2, maxT: 3, firstGenuine: true})
 	rec.Check(t, "rec", ev.N(3, 64), func(rt *rapid.T) {
 		c := g.Draw(rt, "case")
+		rec.Begin("rec", c)
 		rec.Report(rt, "rec", c, run(c, rec))
 	})
 }
